@@ -97,10 +97,12 @@ theorem C11_refuse (st : Store) (s : Img) (h : loadContainer st = .ok s) :
         · cases h
         · split at h
           · cases h
-          · rename_i hm hver _ _ _ _
-            cases h
-            simp at hm hver
-            exact ⟨hm, hver⟩
+          · split at h
+            · cases h
+            · rename_i hm hver _ _ _ _ _
+              cases h
+              simp at hm hver
+              exact ⟨hm, hver⟩
 
 /-- group / link encodings: low 28 bits carry the ID, the high nibble flags a group link -/
 theorem C11_group_link (g : Nat) (hg : 0 < g) (hlt : g < 268435456) :
